@@ -175,6 +175,42 @@ fn flip_char(s: &str, rng: &mut Rng) -> Option<String> {
     None
 }
 
+/// Another spelling of the number `t` that differs from it as little as a spelling can: the case of
+/// the exponent marker, the sign of the exponent or of the number, a trailing fraction zero, `.0`
+/// or `e0` appended. (Numbers are compared as written: every such pair is two different values.)
+fn number_respelled(t: &str, rng: &mut Rng) -> Option<String> {
+    let mut cands: Vec<String> = vec![];
+    if let Some(i) = t.find(|c| c == 'e' || c == 'E') {
+        let (m, e) = t.split_at(i);
+        let marker = if e.starts_with('e') { "E" } else { "e" };
+        cands.push(format!("{}{}{}", m, marker, &e[1..]));
+        let rest = &e[1..];
+        match rest.as_bytes().first() {
+            Some(b'+') => { cands.push(format!("{}{}-{}", m, &e[..1], &rest[1..])); cands.push(format!("{}{}{}", m, &e[..1], &rest[1..])); }
+            Some(b'-') => { cands.push(format!("{}{}+{}", m, &e[..1], &rest[1..])); cands.push(format!("{}{}{}", m, &e[..1], &rest[1..])); }
+            _ => { cands.push(format!("{}{}+{}", m, &e[..1], rest)); cands.push(format!("{}{}0{}", m, &e[..1], rest)); }
+        }
+        if m.contains('.') { cands.push(format!("{}0{}", m, e)); } else { cands.push(format!("{}.0{}", m, e)); }
+    } else {
+        cands.push(format!("{}e0", t)); cands.push(format!("{}E0", t));
+        if t.contains('.') { cands.push(format!("{}0", t)); } else { cands.push(format!("{}.0", t)); }
+    }
+    if let Some(u) = t.strip_prefix('-') { cands.push(u.to_string()); } else { cands.push(format!("-{}", t)); }
+    cands.retain(|c| c != t && json_syntax::NumberBuf::new(c.as_bytes().into()).is_ok());
+    if cands.is_empty() { None } else { Some(cands[rng.usize_below(cands.len())].clone()) }
+}
+
+/// The same text as a leaf of another kind: a number as a string and back, a literal as a string.
+fn other_kind_same_text(v: &Value) -> Option<Value> {
+    match v {
+        Value::Number(n) => Some(Value::String(n.as_str().into())),
+        Value::String(s) => json_syntax::NumberBuf::new(s.as_str().as_bytes().into()).ok().map(Value::Number),
+        Value::Null => Some(Value::String("null".into())),
+        Value::Boolean(b) => Some(Value::String(if *b { "true" } else { "false" }.into())),
+        _ => None,
+    }
+}
+
 /// Change exactly one leaf somewhere inside `v` (descending into arrays and objects at random).
 fn change_one_deep_leaf(v: &mut Value, rng: &mut Rng) {
     match v {
@@ -183,6 +219,8 @@ fn change_one_deep_leaf(v: &mut Value, rng: &mut Rng) {
             let i = rng.usize_below(o.len());
             if let Some((_, slot)) = o.iter_mut().nth(i) { change_one_deep_leaf(slot, rng) }
         }
+        Value::Number(_) | Value::String(_) | Value::Null | Value::Boolean(_) if rng.chance(1, 6) && other_kind_same_text(v).is_some() => { *v = other_kind_same_text(v).unwrap(); }
+        Value::Number(n) if rng.chance(1, 3) && number_respelled(n.as_str(), &mut rng.clone()).is_some() => { let t = number_respelled(n.as_str(), rng).unwrap(); *v = Value::Number(json_syntax::NumberBuf::new(t.as_bytes().into()).unwrap()); }
         Value::Number(n) => {
             // one digit moved to its neighbour (first, last or any digit), or the whole number replaced
             let t = n.as_str().to_string();
@@ -299,6 +337,8 @@ pub fn run_c14(sc: &HistSc, st: &mut Stats) -> super::c06::HistOutcome {
             set_hash_config(hash_mode_of("good"), rng.next_u64());
             let mut near: Vec<(&'static str, Vec<Entry>)> = vec![];
             { let mut e = obs.clone(); e[j].value = different_leaf(&e[j].value); near.push(("one value changed", e)); }
+            if let Some(w) = other_kind_same_text(&obs[j].value) { let mut e = obs.clone(); e[j].value = w; near.push(("one value turned into a leaf of another kind with the same text", e)); }
+            if let Value::Number(n) = &obs[j].value { if let Some(t) = number_respelled(n.as_str(), &mut rng) { let mut e = obs.clone(); e[j].value = Value::Number(json_syntax::NumberBuf::new(t.as_bytes().into()).unwrap()); near.push(("one number respelled (exponent marker, sign, trailing zero)", e)); } }
             { let mut e = obs.clone(); change_one_deep_leaf(&mut e[j].value, &mut rng); near.push(("one leaf changed inside a nested value", e)); }
             { let mut e = obs.clone(); let mut k = e[j].key.as_str().to_string(); k.push('~'); e[j].key = Key::from(k.as_str()); near.push(("one key changed", e)); }
             {
@@ -429,7 +469,11 @@ pub fn run_c14(sc: &HistSc, st: &mut Stats) -> super::c06::HistOutcome {
             match if shape == 5 { rng.below(5) } else { shape } {
                 0 | 1 => as_key(k, &mut rng),
                 2 => V::Str(k.clone()).build(),
-                3 => V::Num(n.clone()).build(),
+                3 => {
+                    // a number, a respelling of the previous one, or the same text as a string
+                    let prev = if i > 0 { number_respelled(&nums[i - 1], &mut rng) } else { None };
+                    match (rng.below(4), prev) { (0, Some(t)) | (1, Some(t)) => V::Num(t).build(), (2, _) => V::Str(n.clone()).build(), _ => V::Num(n.clone()).build() }
+                }
                 _ => {
                     // arrays of 0..3 items drawn from the first three keys / spellings
                     let len = rng.usize_below(4);
